@@ -841,3 +841,18 @@ Proof.
     + exists (frag_in raceA). split; [cbn; auto|cbn; lia].
     + exists (frag_in raceB). split; [cbn; auto|cbn; lia].
 Qed.
+
+(* ------------------------------------------------------------------ accounting under concurrency
+   NOT part of the property text, documented because the sequential theorem size_accounting does
+   not carry over: f.size = sum of r.size is not an invariant of concurrent executions, and the
+   clamp at 0 in release makes the error permanent.  Goroutine 0 stores fragment A in reassembler
+   r0 (P2: r0.size = 8, f.size still 0); goroutine 1 arrives after the reassembly timeout, its P1
+   releases r0: f.size = 0 - 8, logged as an "accounting bug" and clamped to 0; goroutine 0's P3
+   then adds its 8 consumed bytes to f.size although r0 is gone; goroutine 1 stores its own 8 bytes.
+   Final state: one reassembler holding 8 bytes, f.size = 16. *)
+Definition driftProgs : list (list call) :=
+  [[mkCall 5 0 7 true (slice raceD 0 8) 0]; [mkCall 5 0 7 true (slice raceD 0 8) 100]].
+Lemma concurrent_size_drift_reachable :
+  let s := cf_s (crun0 1000 500 10 driftProgs [0; 0; 1; 0; 1; 1]%nat) in
+  c_size s = 16 /\ map (fun o => r_size (getobj s o)) (c_list s) = [8] /\ panics (trace s) = [].
+Proof. vm_compute. repeat split; reflexivity. Qed.
